@@ -327,6 +327,15 @@ def count_time_tags(text):
     return sum(1 for leaf, _ in _leaves(tree or []) if leaf.split("/")[0].strip().casefold() in TIME_TAGS)
 
 
+def _untimed(onset_text):
+    """the onset cell holds no point in time"""
+    try:
+        x = float(onset_text)
+    except (TypeError, ValueError):
+        return True
+    return x != x
+
+
 def has_delay(text):
     return "delay/" in text.casefold()
 
@@ -379,7 +388,9 @@ def check_file(layout, rows, order, raise_label=L_RAISES, eq_label=L_EQUAL, temp
             extra = file_err - want
             missing = want - file_err
             ok = not missing and set(extra) <= {"TEMPORAL_TAG_ERROR"}
-            if ok and not lay["onset"]:
+            if ok and (not lay["onset"] or _untimed(file_rows[k][lay["columns"].index("onset")])):
+                # a row without a time (no onset column, or an onset that is n/a / empty / not a number) cannot carry
+                # temporal tags: one TEMPORAL_TAG_ERROR per Onset/Offset/Inset/Delay/Duration tag
                 ok = sum(extra.values()) == count_time_tags(s["text"])
                 info["time_tags"] = count_time_tags(s["text"])
             elif ok:
@@ -616,6 +627,56 @@ def na_onset_tables(w):
     return tables
 
 
+UNTIMED_ONSETS = [NA, "", "abc", "1,5", "--", "nan"]
+UNTIMED_CELLS = ["(Delay/2 s, (Red))", "(Delay/2 s, Def/MyDef, Onset)", "(Duration/2 s, (Red))", "(Delay/500 ms, Duration/3 s, (Blue))",
+                 "(Def/MyDef, Onset)", "(Def/MyDef, Offset)", "(Def/MyDef, Inset), Green", "Red", "Blue, (Green, Square)", NA,
+                 "(Delay/2 s, (Red)), (Delay/3 ms, (Blue)), Green", "(delay/2 s, Def/Other, Offset)",
+                 # thorough only from here
+                 "(Delay/2 seconds, (Square))", "Blech", "(Delay/2 s, (Red, Red))", "(Duration/3 ms, (Def/MyDef, Onset))"]
+
+
+def untimed_tables(w):
+    """rows without a usable time - onset n/a, empty or not a number - whose annotation holds Delay / Duration groups,
+    Onset / Offset / Inset markers or plain tags, alone and next to timed rows, at every position"""
+    cells = UNTIMED_CELLS[:12] if w.quick else UNTIMED_CELLS
+    tables = []
+
+    def add(layout, rowspec, key):
+        rows = build_rows(layout, [{"HED": c} for _, c in rowspec], [o for o, _ in rowspec])
+        tables.append({"layout": layout, "rows": rows, "key": ("untimed", layout) + key, "perms": [list(range(len(rowspec)))],
+                       "eq_label": L_NAONSET, "temporal_label": None})
+
+    k = 0
+    for ci, cell in enumerate(cells):                      # one untimed row: every onset text x every cell, both file kinds
+        for oi, o in enumerate(UNTIMED_ONSETS):
+            add("hed1", [(o, cell)], (1, ci, oi))
+            add("tsv1", [(o, cell)], (1, ci, oi))
+    for ci, a in enumerate(cells):                          # two rows: untimed + timed, timed + untimed, two untimed
+        for cj, b in enumerate(cells):
+            if a == NA and b == NA:
+                continue
+            for pat in range(3):
+                k += 1
+                if w.quick and (ci + cj + pat) % 3:
+                    continue
+                u1, u2 = UNTIMED_ONSETS[k % len(UNTIMED_ONSETS)], UNTIMED_ONSETS[(k // 2 + 1) % len(UNTIMED_ONSETS)]
+                spec = [[(u1, a), ("2.25", b)], [("1.5", a), (u1, b)], [(u1, a), (u2, b)]][pat]
+                add("tsv1" if k % 4 == 0 else "hed1", spec, (2, ci, cj, pat, u1, u2))
+    delayish = [c for c in cells if "delay" in c.casefold() or "onset" in c.casefold() or "offset" in c.casefold()]
+    for ci, a in enumerate(delayish):                       # three rows: the untimed row first / in the middle / last
+        for cj, b in enumerate(cells):
+            k += 1
+            if w.quick and (ci + cj) % 4:
+                continue
+            u = UNTIMED_ONSETS[k % len(UNTIMED_ONSETS)]
+            other = cells[(ci + cj + 4) % len(cells)]
+            for pos in range(3):
+                spec = [("1.5", b), ("9.0", other)]
+                spec.insert(pos, (u, a))
+                add("tsv1" if (k + pos) % 4 == 0 else "hed1", spec, (3, ci, cj, pos, u))
+    return tables
+
+
 # row types of the Delay part (canonical spelling).  Onsets 1.5 / 2.25 / 9.0 / 10.125 plus 2 s / 500 ms / 3 ms never meet
 # another row, so every shifted group is alone at its time point - except groups of ONE row with equal shifts.
 DELAY_POOL = [
@@ -694,6 +755,14 @@ def run(w: Workload):
     n = _absorb(w, _par(_chunks(nt, 20)), counters)
     w.part("na-onset", cases=n, bound="2-3 row tables with at least one n/a onset at every position over 4 cell texts",
            exhaustive=not w.quick, base_tables=len(nt))
+    ut2 = untimed_tables(w)
+    n = _absorb(w, _par(_chunks(ut2, 25)), counters)
+    w.part("untimed-rows", cases=n, bound="rows whose onset is one of (n/a, '', abc, '1,5', --, nan) x %d cell texts (Delay groups, "
+           "Delay+Onset, Duration, Delay+Duration, Onset / Offset / Inset markers, several Delay groups, plain tags, n/a): every "
+           "(onset, cell) as a one-row file (DataFrame and TSV text); two-row files untimed+timed / timed+untimed / two untimed "
+           "over %s cell pairs; three-row files with the untimed temporal row first / middle / last%s" %
+           (len(UNTIMED_CELLS[:12] if w.quick else UNTIMED_CELLS), "a third of the" if w.quick else "all",
+            " (a quarter of the combinations)" if w.quick else ""), exhaustive=not w.quick, base_tables=len(ut2))
     dt = delay_tables(w)
     dt.sort(key=lambda t: -len(t["rows"]))
     n = _absorb(w, list(reversed(_par(_chunks(dt, 6)))), counters)     # smallest tables first: minimal failure records
